@@ -75,6 +75,14 @@ def check_q(ck, P, ref, kind, alg, reps):
 
 
 def cases(seed, n, tier):
+    # a batch of small, deeply singular problems (defect 3-4, proper regularisation subsets): the pivoting and
+    # Gram-Schmidt steps of the regularisation are only exercised by defects >= 2-3
+    for i in range(n, n + (150 if tier != "thorough" else 3000)):
+        rng = np.random.default_rng([seed, i, 304])
+        nn = int(rng.integers(6, 11))
+        yield i, lsq.gen_problem(rng, n_max=nn, m_max=nn + 6, force=dict(
+            n=nn, defect=int(rng.integers(3, 5)), subset=str(rng.choice(["subset", "subset", "all"])),
+            pattern=str(rng.choice(["dense", "network", "sparse"]))))
     for i in range(n):
         rng = np.random.default_rng([seed, i, 303])
         force = {}
